@@ -117,6 +117,8 @@ def ops_alphabet(full=True, nocase=False):
     # annotation, set-from-text
     O.append(('setcomment', b'i', b'c'))
     O.append(('setcomment', b'il', b'c'))
+    O.append(('setcomment', b'sl', b'c'))          # a list without a default: not in its pristine state from the start
+    O.append(('setcomment', b'sd', b'c'))
     O.append(('setopt', b'il', b'6'))
     O.append(('setopt', b'i', b'6'))
     O.append(('setopt', b'il', b'x'))
